@@ -318,7 +318,9 @@ theorem total_atom {n : Nat} (ih : TotalAt n) (neg : Bool) (ts : List Tok)
           · simp only [h3, if_false]
             exact tot_ok _ (by simp)
       · simp only [h2, if_false]
-        exact tot_ok _ (by omega)
+        split
+        · exact tot_ok _ (by omega)
+        · exact tot_ok _ (by simp)
 
 theorem total_factor {n : Nat} (ih : TotalAt n) (ts : List Tok)
     (h : 8 * ts.length + 2 ≤ n + 1) : Tot (parseFactor (n+1) ts) ts.length := by
